@@ -190,7 +190,12 @@ def compare_doc(s, xsd, doc, nchunks, st, label, replaying=False):
         except Exception as e:
             out.append(rec('lazy_raises', 'same errors as eager', type(e).__name__ + ': ' + str(e)[:120], {'thin': thin}))
             continue
-        if le != base_errs:
+        strip = lambda es: [(t, re.sub(r"'[A-Za-z_][\w.-]*:([A-Za-z_][\w.-]*)'", r"'\1'", r_)) for t, r_ in es]
+        if le != base_errs and strip(le) == strip(base_errs):
+            # same errors, but a tag is named with another PREFIX in the message
+            out.append(dict(rec('lazy_error_prefix_differs', str(base_errs[:3]), str(le[:3]), {'thin': thin}),
+                            classes=['prefix-rebound-below-root'] if 'urn:rebound' in doc else []))
+        elif le != base_errs:
             r_ = rec('lazy_errors_differ', str(base_errs[:4]), str(le[:4]), {'thin': thin})
             if sorted(le) == sorted(base_errs) and root_and_chunk_errors:
                 r_['classes'] = ['lazy-root-errors-last']
@@ -328,7 +333,12 @@ def run_shard(desc):
                         except (IndexError, KeyError):
                             pass
                     label = '+'.join(f[0] for f in fl)
-            doc = dg.ser(tree, default_ns=rnd.random() < .3)
+            sp = None
+            if rnd.random() < .4:
+                # inner namespace scopes (new prefix + rebinding), nested and closing together with their parents
+                sp = {p for _, p in dg.nodes(tree) if p and len(p) <= 3 and rnd.random() < .5}
+                st_.cls('inner_namespace_scopes')
+            doc = dg.ser(tree, default_ns=rnd.random() < .3, switch_paths=sp)
             st_.sample({'generator': 'docgen', 'label': label, 'doc': doc[:300]}, cap=2)
             return compare_doc(s, g.xsd(), doc, len(tree['kids']), st_, label)
     core.hyp_drive(st, PROPERTY, hst.randoms(use_true_random=False), body, n, core.derive_seed(seed, 'C06', kind, k))
